@@ -272,6 +272,31 @@ def run_case(args):
         finally:
             ps.SchedulingSolver.initialize = orig_init
         analyse(out, case, solver, tasks, varlist, outs, marks, sp, z3)
+        # what a solver is given at initialisation is a function of the problem alone: the same after a second initialize(),
+        # and the same for a second solver object created on the problem after this one has been used
+        inits = [ev[1] for ev in sp.LOG if ev[0] == 'init_end']
+        if inits and not out.get('known_only'):
+            def akey(asserts):
+                return sorted(a.sexpr() for a in asserts)
+            k0 = akey(inits[0])
+            for j, a in enumerate(inits[1:]):
+                kj = akey(a)
+                if kj != k0:
+                    d = [x for x in k0 if x not in kj] + [x for x in kj if x not in k0]
+                    out.setdefault('sem', []).append(('initialize-again-gives-another-constraint-system', j + 1, (d[0] if d else 'multiplicity')[:200]))
+                    break
+            try:
+                with contextlib.redirect_stdout(io.StringIO()), warnings.catch_warnings():
+                    warnings.simplefilter('ignore')
+                    solver2 = ps.SchedulingSolver(problem=im.pb, max_time=600, **cfg)
+                    solver2.initialize()
+                k2 = akey(solver2._solver.assertions())
+                if k2 != k0:
+                    d = [x for x in k0 if x not in k2] + [x for x in k2 if x not in k0]
+                    out.setdefault('sem', []).append(('second-solver-on-the-problem-gets-another-constraint-system', None, (d[0] if d else 'multiplicity')[:200]))
+            except (AssertionError, ValueError) as e:
+                if 'already exists' not in str(e):      # F22 (multi-objective problem initialised twice)
+                    out.setdefault('sem', []).append(('second-solver-on-the-problem-raises', None, str(e)[:200]))
         # a solution handed to the caller does not change when the solver is used again, and its two views agree
         for (k, sobj) in returned:
             now = solution_summary(sobj)
